@@ -46,9 +46,12 @@ def gen_cases(rng, tier: str) -> list[dict]:
     cases = []
     for origin, e in exprs:
         vs = common.names_of(e)
+        prior = None
         for p in common.points_for(rng, e, 2):
             c = common.make_eval_case(origin, e, p)
             c["x"] = rng.choice(vs) if vs and rng.random() < 0.85 else "w"
+            c["prior"] = prior
+            prior = c["p"]
             cases.append(c)
     return cases
 
@@ -62,7 +65,10 @@ def check_cases(cases: list[dict], rep: Report, known: dict) -> None:
         base = call(e.at, p)
         group = []
         for r in routes.routes_for(e, c["x"]):
-            impl = routes.run_route(r, wire.build_raw(c["e"]), c["x"] if r not in routes.DERIV_ROUTES else None, p)
+            obj = wire.build_raw(c["e"])
+            if c.get("prior"):          # the same expression object was evaluated before, elsewhere
+                call(obj.at, wire.build_point(c["prior"]))
+            impl = routes.run_route(r, obj, c["x"] if r not in routes.DERIV_ROUTES else None, p)
             xr = c["x"] if r not in routes.DERIV_ROUTES else (common.names_of(e) or ["whatever"])[0]
             nc = NumCase((c["e"], c["p"], c["x"], r), f"route {r} {xr} {c['e']} {c['p']}", impl,
                          dict(c, route=r, impl=repr(impl), at=repr(base)))
